@@ -26,7 +26,7 @@ fn run_static_comb<T: Dom, C: View<T>, A: View<T>, B: View<T>, O: View<T>>(mut c
         a.update(x);
         b.update(x);
         if let (Some(p), Some(q)) = (a.last(), b.last()) {
-            if op == 3 { T::assume(Cond::Ne(q, T::zero())); }
+            if op == 3 && q == T::zero() { T::oblige(&format!("{name} t={t}: divisor is zero on this path (out of domain, scenario ends)"), Cond::Bool(true)); return; }
             alone.update(match op { 0 => p + q, 1 => p - q, 2 => p * q, _ => p / q });
         }
         T::oblige(&format!("{name} t={t}: statically typed chain over a combinator identical to the stand-alone pipeline"), opt_ident(chain.last(), alone.last()));
